@@ -32,6 +32,8 @@ def one_case(run, specs, op, transform=None):
     rep = {"case": op, "basis": core.describe_basis(specs),
            "transform": None if transform is None else transform.tolist()}
     ok = compare(run, op + "_integral", impl, model, tol, rep, op)
+    if not ok:
+        return False
     herm = np.abs(impl - np.conj(np.transpose(impl, (1, 0, 2))))
     if ok and np.any(herm > 2 * tol):
         idx = tuple(int(i) for i in np.unravel_index(np.argmax(herm - 2 * tol), herm.shape))
